@@ -17,12 +17,12 @@ import (
 // reported as evidence) and yields or sleeps there to widen windows the Go scheduler would
 // otherwise open once in a million runs. All points sit between critical sections.
 type Sched struct {
-	seed   uint64
-	n      atomic.Uint64
-	mu     sync.Mutex
-	trace  []string
-	Hits   map[string]int
-	Aggro  int // 0..100: probability (percent) of perturbing at a point
+	seed  uint64
+	n     atomic.Uint64
+	mu    sync.Mutex
+	trace []string
+	Hits  map[string]int
+	Aggro int // 0..100: probability (percent) of perturbing at a point
 }
 
 func NewSched(seed uint64, aggro int) *Sched {
